@@ -144,22 +144,29 @@ public:
       // max size reached or invalid key/value. Returning empty TraceState
       return TraceState::GetDefault();
     }
-    auto allocate_size = curr_size;
-    if (curr_size < kMaxKeyValuePairs)
+    // an existing key is updated (moved to the front), never duplicated - also when the list is full
+    std::string unused;
+    const bool key_exists = kv_properties_->GetValue(key, unused);
+    auto allocate_size    = curr_size;
+    if (!key_exists && curr_size < kMaxKeyValuePairs)
     {
       allocate_size += 1;
     }
     nostd::shared_ptr<TraceState> ts(new TraceState(allocate_size));
-    if (curr_size < kMaxKeyValuePairs)
+    if (key_exists || curr_size < kMaxKeyValuePairs)
     {
       // add new field first
       ts->kv_properties_->AddEntry(key, value);
     }
     // add rest of the fields.
-    kv_properties_->GetAllEntries([&ts](nostd::string_view key, nostd::string_view value) {
-      ts->kv_properties_->AddEntry(key, value);
-      return true;
-    });
+    kv_properties_->GetAllEntries(
+        [&ts, &key, key_exists](nostd::string_view e_key, nostd::string_view e_value) {
+          if (!key_exists || e_key != key)
+          {
+            ts->kv_properties_->AddEntry(e_key, e_value);
+          }
+          return true;
+        });
     return ts;
   }
 
